@@ -431,7 +431,7 @@ func (s *c18scn) run(f c18fault) core.Result {
 			"-e", "trace=openat,write,fsync,close,fchmodat,renameat,renameat2,unlinkat,exit_group",
 			"-e", fmt.Sprintf("inject=%s:signal=SIGKILL:when=%d", f.sc, f.idx)}
 	}
-	return core.Exec(cmd)
+	return execCounted(s.c, cmd)
 }
 
 func (s *c18scn) shell(f c18fault) string {
